@@ -875,6 +875,7 @@ pub fn run_typed<I: HInp, P: InputPredictor<I> + 'static>(sc: &Scenario, opts: &
                 Op::Forge { to, from, kind, a, b, bytes, .. } => {
                     forge(&net, *to, *from, *kind, *a, *b, bytes, nplayers);
                 }
+                Op::Misuse { kind: 98, .. } => {}
                 Op::Misuse { peer, kind, arg, .. } => {
                     let p = *peer as usize;
                     if p < np && peers[p].out.alive {
@@ -902,6 +903,40 @@ pub fn run_typed<I: HInp, P: InputPredictor<I> + 'static>(sc: &Scenario, opts: &
             verif_hooks::clock::advance_millis(1);
         } else {
             verif_hooks::clock::advance_millis(dt);
+        }
+
+        // late ops: Misuse kind 98 = "the game polls (taking in whatever has arrived by now) and drops player `arg`
+        // with disconnect_player before its next advance_frame()"
+        for op in &sc.ops {
+            if let Op::Misuse { tick: t, peer, kind: 98, arg } = op {
+                let p = *peer as usize;
+                if *t == tick && p < np && peers[p].out.alive {
+                    let h = *arg as usize;
+                    let r = match peers[p].sess.as_mut() {
+                        Some(s) => catch_unwind(AssertUnwindSafe(|| {
+                            s.poll_remote_clients();
+                            s.disconnect_player(h)
+                        })),
+                        None => continue,
+                    };
+                    match r {
+                        Ok(res) => {
+                            if res.is_ok() {
+                                let a = if h < nplayers { peer_addr(owners[h]) } else { spec_addr(h - nplayers) };
+                                peers[p].neighbours.retain(|x| *x != a);
+                            }
+                            peers[p].out.misuse_results.push((tick, 50, *arg, res.is_ok()));
+                            let half = peers[p].half;
+                            after_call(&mut peers[p], half);
+                        }
+                        Err(_) => {
+                            viols.push(Viol { prop: "PANIC", clause: format!("panic|{}", normalise(&take_panic())), msg: "poll + disconnect_player panicked".into(), node: format!("peer{p}"), tick });
+                            peers[p].out.alive = false;
+                            peers[p].out.panicked = true;
+                        }
+                    }
+                }
+            }
         }
 
         // order
